@@ -683,12 +683,26 @@ func ruleC15ExpiryEvicts(c *Ctx) {
 		return
 	}
 	c.FuncsAnalysed[shortName(f)] = true
-	isExpiredTest := func(v ssa.Value) bool {
+	var isExpiredTest func(v ssa.Value) bool
+	isExpiredTest = func(v ssa.Value) bool {
 		cv, ok := strip(v).(*ssa.Call)
-		if !ok || !staticIs(cv, "(time.Time).Before") {
+		if !ok {
 			return false
 		}
-		return strings.HasSuffix(accessPath(cv.Call.Args[0]), ".expiration")
+		if staticIs(cv, "(time.Time).Before") {
+			return strings.HasSuffix(accessPath(cv.Call.Args[0]), ".expiration")
+		}
+		// a predicate helper of the package whose verdict is such a test
+		if h := staticCallee(cv); h != nil && h.Blocks != nil && h.Pkg != nil && h.Pkg.Pkg.Path() == pkgCache && h.Signature.Results().Len() == 1 && h.Signature.Results().At(0).Type().String() == "bool" {
+			hit := false
+			allInstrs(h, func(j ssa.Instruction) {
+				if c2, isC := j.(*ssa.Call); isC && staticIs(c2, "(time.Time).Before") && strings.HasSuffix(accessPath(c2.Call.Args[0]), ".expiration") {
+					hit = true
+				}
+			})
+			return hit
+		}
+		return false
 	}
 	n := 0
 	for _, b := range f.Blocks {
